@@ -486,7 +486,7 @@ def shrink_coarse(case, ident, classes):
     for i, row in enumerate(grid):
         for c in row:
             role = "header" if i == 0 else "data"
-            if (c, role) in tried or c not in classes:
+            if (c, role) in tried or c not in classes or len(tried) >= 140:
                 continue
             tried.add((c, role))
             g = [[c, "h1"], ["r1x0", "r1x1"]] if role == "header" else [["h0", "h1"], [c, "r1x1"]]
@@ -641,6 +641,7 @@ def work(task):
     k, n = task
     part = Part()
     best = {}  # ident key -> [ident, detail, replay, count]
+    shrunk = set()
     hashes = []
     for case in CASES[k::n]:
         fails, info = eval_case(case, CLASSES)
@@ -668,7 +669,8 @@ def work(task):
                         _keep(best, ident, ids2[key], small, 0)
         for ident, detail in fails:
             key = json.dumps(ident, sort_keys=True)
-            if ident["mechanism"] in COARSE and "padded" not in ident["pattern"] and case["k"] == "grid" and (key not in best or len(json.dumps(best[key][2])) > 400):
+            if ident["mechanism"] in COARSE and "padded" not in ident["pattern"] and case["k"] == "grid" and key not in shrunk:
+                shrunk.add(key)  # one bounded attempt per identity and worker
                 sm = shrink_coarse(case, ident, CLASSES)
                 if sm is not None:
                     _keep(best, ident, sm[1], sm[0], 0)
